@@ -186,7 +186,6 @@ Proof.
     destruct lc; [congruence|]. cbn [pb_bp]. rewrite (build_path_nonempty _ Hn Hok). reflexivity.
   - simpl in E. eapply loop_HP; [|exact E].
     intros kv Hin idx seen0 r0 Eb. cbv beta in Eb.
-    destruct (skip_merged mt o (oid i) idx); [inversion Eb; constructor|].
     destruct (search_anchor _ _ _ _ (fst kv) seen0 _) as [ka_s| |]; simpl in Eb; try discriminate.
     destruct (search_anchor _ _ _ _ (snd kv) (snd ka_s) _) as [va_s| |]; simpl in Eb; try discriminate.
     destruct (_ || _); [inversion Eb; constructor|].
@@ -273,10 +272,9 @@ Proof.
     simpl fst. rewrite app_nil_r.
     eapply loop_HP; [|exact El].
     intros kv Hin idx seen0 r0 Eb. unfold body in Eb. clear El body.
-    destruct (skip_merged mt o (oid i) idx); [inversion Eb; constructor|].
     destruct (search_anchor _ _ _ _ (fst kv) seen0 _) as [ka_s| |]; simpl in Eb; try discriminate.
     destruct (search_anchor _ _ _ _ (snd kv) (snd ka_s) _) as [va_s| |]; simpl in Eb; try discriminate.
-    destruct (negb (o_kalias o) && is_excl (fst ka_s)); [inversion Eb; constructor|].
+    destruct (_ || _); [inversion Eb; constructor|].
     pose proof (PT_key lc bp (fst kv) RKey (or_introl eq_refl) HT) as HT'.
     assert (Hpv : seq_plain (snd kv) = true) by (simpl in Hp; rewrite forallb_forall in Hp; apply (Hp _ Hin)).
     apply (Forall_up lc (key_ref (fst kv))).
